@@ -3,7 +3,7 @@
 # Copies a confirmed seeded change from /tmp/seed/out/<Cnn>/ to /verif/seeded/<seed-id>/.
 set -eu
 P=$1; K=$2; ID=$3; NOTE=$4
-SRC=/tmp/seed/out/$P; DST=/verif/seeded/$ID
+SRC=${SEEDSRC:-/tmp/seed/out}/$P; DST=/verif/seeded/$ID
 mkdir -p $DST
 cp $SRC/patch$K.diff $DST/patch.diff
 cp $SRC/demo$K.py $DST/demo.py
